@@ -401,6 +401,10 @@ func TestC04(t *testing.T) {
 				mp := rapid.Int64Range(1, 5).Draw(rt, "maxProofs")
 				exp := w.f.Height() + rapid.SampledFrom([]int64{1, 14_399, 14_400, 14_401, 30_000, 432_000, 5_256_000}).Draw(rt, "expiresIn")
 				fail(w.payOnce(creator, size, mp, exp))
+				if rapid.IntRange(0, 3).Draw(rt, "twinPost") == 0 { // an equal payment by somebody else in the same block
+					fail(w.payOnce(chain.Acc(1), size, mp, exp))
+					rec.Count("same-block-twin-payment")
+				}
 				continue
 			}
 			m := &storagetypes.MsgBuyStorage{Creator: creator.Bech, PaymentDenom: rapid.SampledFrom([]string{"ujkl", "ujkl", "ujkl", "ujkl", "uatom", ""}).Draw(rt, "denom")}
@@ -423,6 +427,15 @@ func TestC04(t *testing.T) {
 			_ = before
 			sig, msg := w.buy(m)
 			fail(sig, msg)
+			if rapid.IntRange(0, 3).Draw(rt, "twinBuy") == 0 { // an equal purchase by somebody else in the same block
+				twin := *m
+				twin.Creator, twin.ForAddress = chain.Acc(1).Bech, chain.Acc(4).Bech
+				if m.Creator == twin.Creator {
+					twin.Creator = chain.Acc(3).Bech
+				}
+				fail(w.buy(&twin))
+				rec.Count("same-block-twin-payment")
+			}
 			if pi, found := w.c.App.StorageKeeper.GetStoragePaymentInfo(w.f.Ctx, m.ForAddress); found && pi.Start.Equal(w.f.Time()) {
 				lastFor, lastBytes, lastDays = m.ForAddress, m.Bytes, m.DurationDays
 			}
